@@ -281,6 +281,9 @@ type FeedItem struct {
 	Data []byte
 	Err  error
 	Attr interceptor.Attributes
+	// NWithErr: a failing read still reports how many bytes it wrote into the buffer
+	// (io.Reader style: n > 0 together with an error).
+	NWithErr bool
 }
 
 // FeedRead records what the inner reader delivered.
@@ -337,6 +340,9 @@ func (f *Feed) Read(b []byte, a interceptor.Attributes) (int, interceptor.Attrib
 	}
 	if it.Err != nil {
 		// a failed read may still have scribbled the buffer (the "poison" packet)
+		if it.NWithErr {
+			return n, a, it.Err
+		}
 		return 0, a, it.Err
 	}
 	return n, a, nil
